@@ -47,7 +47,9 @@ def enumerate_skeletons(max_stmts=4, max_d=3, max_len=2, loop_else=False, funcs=
 
 
 class Decorator:
-    def __init__(self, rnd, names=('x', 'y'), simple_tests=0.8, closure_bias=False, balanced_exc=False):
+    def __init__(self, rnd, names=('x', 'y'), simple_tests=0.8, closure_bias=False, balanced_exc=False, contexts=None):
+        self.contexts = mp.CONTEXTS if contexts is None else contexts
+        self.cx = mp.Contexts(rnd, names)
         self.pexc = 0.5 if balanced_exc else 0.85      # probability of class E1 for raise statements and handlers
         self.r = rnd
         self.names = list(names)
@@ -68,6 +70,8 @@ class Decorator:
 
     def value(self, b, scope):
         r = self.r.random()
+        if self.contexts and self.r.random() < 0.1:
+            return self.cx.value(b, scope)
         if r < 0.75:
             return b.T(self.reads(b, scope))
         if r < 0.85:
@@ -120,6 +124,10 @@ class Decorator:
         r = self.r
         if t == 's':
             q = r.random()
+            if self.contexts and r.random() < 0.08:
+                if self.cx.callable_lams(b, fn) and r.random() < 0.6:
+                    return self.cx.lambda_call(b, fn, scope, allow_return=False)
+                return self.cx.lambda_stmt(b, fn, scope)
             if q < 0.85:
                 return b.node(kind='assign', fn=fn, tgt=[r.choice(self.names)], e=self.value(b, scope))
             if q < 0.95:
@@ -183,7 +191,10 @@ class Decorator:
             b.fns[fid - 1]['body'] = self.block(b, fid, (self.names * 3 + params) if self.closure_bias else scope + params)
             self.infn -= 1
             self.take('end')
-            return b.node(kind='def', fn=fn, name=b.fns[fid - 1]['name'], f=fid)
+            nd = b.node(kind='def', fn=fn, name=b.fns[fid - 1]['name'], f=fid)
+            if self.contexts:
+                self.cx.decorate_def(b, nd, scope)
+            return nd
         if t in ('call', 'callnr'):
             # the def token sequence is always followed by a call of the function just defined
             f = max(i for i in range(1, len(b.fns) + 1) if b.fns[i - 1]['parent'] == fn)
